@@ -50,6 +50,8 @@ type ProvSpec struct {
 	RequireEAB bool
 	// AttestationRoots (PEM) enables device-attest-01 with the "step" format for this provisioner.
 	AttestationRoots []byte
+	// ForceCN sets the provisioner's forceCN option (common name forced to the first DNS name).
+	ForceCN bool
 }
 
 type Env struct {
@@ -161,7 +163,7 @@ func New(provs []ProvSpec, wrap func(acme.DB) acme.DB) (*Env, error) {
 	var plist provisioner.List
 	for _, ps := range provs {
 		p := &provisioner.ACME{Type: "ACME", Name: ps.Name, ID: ps.ID, RequireEAB: ps.RequireEAB,
-			Challenges: []provisioner.ACMEChallenge{provisioner.HTTP_01, provisioner.DEVICE_ATTEST_01}}
+			Challenges: []provisioner.ACMEChallenge{provisioner.HTTP_01, provisioner.DEVICE_ATTEST_01}, ForceCN: ps.ForceCN}
 		if ps.AttestationRoots != nil {
 			p.AttestationRoots = ps.AttestationRoots
 			p.AttestationFormats = []provisioner.ACMEAttestationFormat{provisioner.STEP}
